@@ -600,4 +600,3 @@ func isRawAccessFn(f *ssa.Function) bool {
 	})
 	return usesUnsafe
 }
-
